@@ -832,16 +832,23 @@ def run(chk):
     # ---- exhaustive sweeps ----
     ALL1 = ["add", "app", "rem", "delp", "deln", "ren", "setid", "inpl", "chg", "ecu", "lid"]
     F2 = [False, True]
+    LEAN = [k for k in ALL1 if k not in ("rem", "ren", "ecu")]
     sweeps = [
         dict(name="1 matrix, every operation, 3 ids x 2 formats x 3 names, 2 ECU names", nmat=1, uni="full", ids=IDS, fmts=F2, names=[0, 1, 2],
-             ops=ALL1, necus=2, length=4),
+             ops=ALL1, necus=2, length=4 if thorough else 3),
+    ]
+    if not thorough:
+        sweeps.append(
+            dict(name="1 matrix, every operation but remove_frame/rename_frame/add_ecu, 3 ids x 2 formats x 3 names", nmat=1, uni="full", ids=IDS,
+                 fmts=F2, names=[0, 1, 2], ops=LEAN, length=4))
+    sweeps += [
         dict(name="2 matrices, add/append/delete/set id/in-place id/lookup/copy/merge, 2 ids x 2 formats x 1 name", nmat=2, uni="small",
              ids=IDS[:2], fmts=F2, names=[0], ops=["add", "app", "delp", "setid", "inpl", "lid", "copy", "merge"], length=4),
     ]
     if thorough:
         sweeps += [
             dict(name="1 matrix, every operation but remove_frame/rename_frame/add_ecu, 2 ids x 2 formats x 2 names", nmat=1, uni="small",
-                 ids=IDS[:2], fmts=F2, names=[0, 1], ops=[k for k in ALL1 if k not in ("rem", "ren", "ecu")], length=5),
+                 ids=IDS[:2], fmts=F2, names=[0, 1], ops=LEAN, length=5),
             dict(name="2 matrices, every operation + copy + merge, 2 ids x 2 formats x 1 name", nmat=2, uni="small", ids=IDS[:2], fmts=F2,
                  names=[0], ops=ALL1 + ["copy", "merge"], necus=1, length=4),
             dict(name="2 matrices, append/delete/set id/lookup/copy/merge, 1 id x 2 formats x 1 name", nmat=2, uni="small", ids=IDS[:1],
